@@ -19,9 +19,9 @@ messages, the text of C19) as a classification of the supplied value
                that the implementation keeps doing what the model does on these is the
                correspondence check's business, not the specification's.
 
-One recorded open finding (K2) violates the documented rule; the predicates `k2Exc` (Box) and
-`nullK2Exc` (K2 seen through a null point) delimit it (the theorems exclude exactly these inputs).
-The former finding K19a (falsy null points unchecked) was repaired in fc3584a and has no exception.
+No exception is left: the two findings this specification exposed — K19a (falsy null points were
+not checked, repaired in fc3584a) and K2 (an integer Box accepted lists and numpy scalars after
+truncation, repaired in 9e72b84) — are fixed, and the theorems hold for every modelled input.
 -/
 namespace Abmarl
 namespace Cfg
@@ -329,29 +329,6 @@ def specBox (b : BoxSp) (v : PyVal) (out : BoxOut) : Bool :=
   | .malformed => out != .yes          -- `False`, or an exception
   | .either => true
 
-/-- finite and not an integer -/
-def fracF : Flt → Bool
-  | .fin q => q.den != 1
-  | _ => false
-
-def fracFloatLeaf : PyVal → Bool
-  | .float f => fracF f
-  | .npFloat f => fracF f
-  | _ => false
-
-/-- **Known finding K2** — the inputs on which the unchanged code departs from the documented
-rule: a list, tuple or numpy float scalar (the values that go through
-`np.asarray(x, dtype=int)`) offered to an *integer* Box and containing a finite non-integral
-float, which numpy truncates (`[1.9] in Box(0, 1, (1,), int)`). -/
-def k2Exc (b : BoxSp) (v : PyVal) : Bool :=
-  b.isInt &&
-  (match v with
-   | .list _ => true
-   | .tuple _ => true
-   | .npFloat _ => true
-   | _ => false) &&
-  (leaves v).any fracFloatLeaf
-
 /-! ## Null points -/
 
 def docInSpace (sp : Space) (v : PyVal) : Doc :=
@@ -407,15 +384,6 @@ def specAccept (a : Attr) (c : Ctx) (v : PyVal) (out : Outcome) : Bool :=
   | .valid => out == .accepted
   | .malformed => out == .rejAssign || out == .rejFinal
   | .either => true
-
-/-- **K2 seen through a null point** (the only exception left for the attributes; the former
-finding K19a — falsy null points were not checked — was repaired in fc3584a): the space is an
-integer Box and the point is a K2 input, which `Box.contains` accepts after truncation -/
-def nullK2Exc (a : Attr) (c : Ctx) (v : PyVal) : Bool :=
-  a == .nullPoint && (match c.space with | .box b => k2Exc b v | _ => false)
-
-/-- the inputs excluded from `model_meets_specAccept` (recorded open findings) -/
-def knownExc (a : Attr) (c : Ctx) (v : PyVal) : Bool := nullK2Exc a c v
 
 /-! ## The overlap specification -/
 
